@@ -9,7 +9,7 @@ use crate::render::*;
 use ats_smart_contract::bid_order::{BidOrderV2, BIDS_V2};
 use ats_smart_contract::ask_order::{AskOrderClass, AskOrderStatus, AskOrderV1, ASKS_V1};
 use ats_smart_contract::bid_order::{BidOrderV3, BIDS_V3};
-use ats_smart_contract::common::{Action, BlockInfo, Event, FeeInfo};
+use ats_smart_contract::common::{Action, FeeInfo};
 use ats_smart_contract::contract::{execute, instantiate, migrate, query};
 use ats_smart_contract::contract_info::{get_contract_info, set_contract_info, ContractInfoV3};
 use ats_smart_contract::msg::{ExecuteMsg, InstantiateMsg, MigrateMsg, QueryMsg};
@@ -253,41 +253,30 @@ impl World {
         let env = mock_env();
         match req {
             ReqT::Instantiate { sender, funds, msg } => {
-                let m = InstantiateMsg {
-                    name: msg.name.clone(),
-                    base_denom: msg.base.clone(),
-                    convertible_base_denoms: msg.convs.clone(),
-                    supported_quote_denoms: msg.quotes.clone(),
-                    approvers: msg.approvers.clone(),
-                    executors: msg.executors.clone(),
-                    ask_fee_rate: msg.askfee_rate.get().map(render_rate),
-                    ask_fee_account: msg.askfee_acct.get().cloned(),
-                    bid_fee_rate: msg.bidfee_rate.get().map(render_rate),
-                    bid_fee_account: msg.bidfee_acct.get().cloned(),
-                    ask_required_attributes: msg.askattrs.clone(),
-                    bid_required_attributes: msg.bidattrs.clone(),
-                    price_precision: Uint128::new(msg.prec.max(0) as u128),
-                    size_increment: Uint128::new(msg.inc.max(0) as u128),
-                };
+                let m: InstantiateMsg = via_json(serde_json::json!({
+                    "name": msg.name, "base_denom": msg.base, "convertible_base_denoms": msg.convs,
+                    "supported_quote_denoms": msg.quotes, "approvers": msg.approvers, "executors": msg.executors,
+                    "ask_fee_rate": msg.askfee_rate.get().map(render_rate), "ask_fee_account": msg.askfee_acct.get(),
+                    "bid_fee_rate": msg.bidfee_rate.get().map(render_rate), "bid_fee_account": msg.bidfee_acct.get(),
+                    "ask_required_attributes": msg.askattrs, "bid_required_attributes": msg.bidattrs,
+                    "price_precision": msg.prec.max(0).to_string(), "size_increment": msg.inc.max(0).to_string(),
+                }))?;
                 let r = instantiate(self.deps.as_mut(), env, mock_info(sender, &coins_of(funds)), m)
                     .map_err(|e| e.to_string())?;
                 Ok(resp_of(&r, "init"))
             }
             ReqT::Migrate { msg, .. } => {
-                let m = MigrateMsg {
-                    approvers: msg.approvers.get().cloned(),
-                    ask_fee_rate: msg.askfee_rate.get().map(render_rate),
-                    ask_fee_account: msg.askfee_acct.get().cloned(),
-                    bid_fee_rate: msg.bidfee_rate.get().map(render_rate),
-                    bid_fee_account: msg.bidfee_acct.get().cloned(),
-                    ask_required_attributes: msg.askattrs.get().cloned(),
-                    bid_required_attributes: msg.bidattrs.get().cloned(),
-                };
+                let m: MigrateMsg = via_json(serde_json::json!({
+                    "approvers": msg.approvers.get(),
+                    "ask_fee_rate": msg.askfee_rate.get().map(render_rate), "ask_fee_account": msg.askfee_acct.get(),
+                    "bid_fee_rate": msg.bidfee_rate.get().map(render_rate), "bid_fee_account": msg.bidfee_acct.get(),
+                    "ask_required_attributes": msg.askattrs.get(), "bid_required_attributes": msg.bidattrs.get(),
+                }))?;
                 let r = migrate(self.deps.as_mut(), env, m).map_err(|e| e.to_string())?;
                 Ok(resp_of(&r, "migrate"))
             }
             ReqT::QueryAsk { id, .. } => {
-                let b = query(self.deps.as_ref(), env, QueryMsg::GetAsk { id: render_id(id) }).map_err(|e| e.to_string())?;
+                let b = query(self.deps.as_ref(), env, via_json::<QueryMsg>(serde_json::json!({"get_ask": {"id": render_id(id)}}))?).map_err(|e| e.to_string())?;
                 let res = match serde_json::from_slice::<AskOrderV1>(b.as_slice()) {
                     Ok(a) => ResultT::Ask { v: ask_from_chain(&a) },
                     Err(_) => ResultT::Other { v: String::from_utf8_lossy(b.as_slice()).to_string() },
@@ -295,7 +284,7 @@ impl World {
                 Ok(query_resp(res))
             }
             ReqT::QueryBid { id, .. } => {
-                let b = query(self.deps.as_ref(), env, QueryMsg::GetBid { id: render_id(id) }).map_err(|e| e.to_string())?;
+                let b = query(self.deps.as_ref(), env, via_json::<QueryMsg>(serde_json::json!({"get_bid": {"id": render_id(id)}}))?).map_err(|e| e.to_string())?;
                 let res = match serde_json::from_slice::<BidOrderV3>(b.as_slice()) {
                     Ok(a) => ResultT::Bid { v: bid_from_chain(&a) },
                     Err(_) => ResultT::Other { v: String::from_utf8_lossy(b.as_slice()).to_string() },
@@ -303,7 +292,7 @@ impl World {
                 Ok(query_resp(res))
             }
             ReqT::QueryCfg { .. } => {
-                let b = query(self.deps.as_ref(), env, QueryMsg::GetContractInfo {}).map_err(|e| e.to_string())?;
+                let b = query(self.deps.as_ref(), env, via_json::<QueryMsg>(serde_json::json!({"get_contract_info": {}}))?).map_err(|e| e.to_string())?;
                 let res = match serde_json::from_slice::<ContractInfoV3>(b.as_slice()) {
                     Ok(a) => ResultT::Cfg { v: cfg_from_chain(&a) },
                     Err(_) => ResultT::Other { v: String::from_utf8_lossy(b.as_slice()).to_string() },
@@ -311,7 +300,7 @@ impl World {
                 Ok(query_resp(res))
             }
             ReqT::QueryVer { .. } => {
-                let b = query(self.deps.as_ref(), env, QueryMsg::GetVersionInfo {}).map_err(|e| e.to_string())?;
+                let b = query(self.deps.as_ref(), env, via_json::<QueryMsg>(serde_json::json!({"get_version_info": {}}))?).map_err(|e| e.to_string())?;
                 let res = match serde_json::from_slice::<VersionInfoV1>(b.as_slice()) {
                     Ok(a) => ResultT::Ver { v: a.version },
                     Err(_) => ResultT::Other { v: String::from_utf8_lossy(b.as_slice()).to_string() },
@@ -319,7 +308,7 @@ impl World {
                 Ok(query_resp(res))
             }
             _ => {
-                let (sender, funds, msg) = execute_msg(req);
+                let (sender, funds, msg) = execute_msg(req)?;
                 let r = execute(self.deps.as_mut(), env, mock_info(&sender, &coins_of(&funds)), msg)
                     .map_err(|e| e.to_string())?;
                 Ok(resp_of(&r, req.kind()))
@@ -387,76 +376,61 @@ fn opt_size(x: i64) -> Option<Uint128> {
     }
 }
 
-fn execute_msg(req: &ReqT) -> (String, Vec<CoinT>, ExecuteMsg) {
-    match req.clone() {
+/// Chain types are built from JSON, not from struct literals: a field added to a message or to a
+/// stored type (with a default) then neither breaks this harness nor needs it to change.
+fn via_json<T: serde::de::DeserializeOwned>(v: serde_json::Value) -> Result<T, String> {
+    serde_json::from_value(v).map_err(|e| format!("harness: cannot build chain value: {}", e))
+}
+
+fn execute_msg(req: &ReqT) -> Result<(String, Vec<CoinT>, ExecuteMsg), String> {
+    let us = |x: i64| x.max(0).to_string();
+    let os = |x: i64| if x < 0 { None } else { Some(x.to_string()) };
+    let (sender, funds, j) = match req.clone() {
         ReqT::CreateAsk { sender, funds, id, base, quote, price, size } => (
             sender,
             funds,
-            ExecuteMsg::CreateAsk { id: render_id(&id), base, quote, price: render_dec(&price), size: u(size) },
+            serde_json::json!({"create_ask": {"id": render_id(&id), "base": base, "quote": quote, "price": render_dec(&price), "size": us(size)}}),
         ),
         ReqT::CreateBid { sender, funds, id, base, fee, price, quote, qsize, size } => (
             sender,
             funds,
-            ExecuteMsg::CreateBid {
-                id: render_id(&id),
-                base,
-                fee: if fee.some { Some(coin(fee.amt.max(0) as u128, fee.denom)) } else { None },
-                price: render_dec(&price),
-                quote,
-                quote_size: u(qsize),
-                size: u(size),
-            },
+            serde_json::json!({"create_bid": {"id": render_id(&id), "base": base,
+                "fee": if fee.some { Some(serde_json::json!({"denom": fee.denom, "amount": us(fee.amt)})) } else { None },
+                "price": render_dec(&price), "quote": quote, "quote_size": us(qsize), "size": us(size)}}),
         ),
         ReqT::ApproveAsk { sender, funds, id, base, size } => {
-            (sender, funds, ExecuteMsg::ApproveAsk { id: render_id(&id), base, size: u(size) })
+            (sender, funds, serde_json::json!({"approve_ask": {"id": render_id(&id), "base": base, "size": us(size)}}))
         }
-        ReqT::CancelAsk { sender, funds, id, .. } => (sender, funds, ExecuteMsg::CancelAsk { id: render_id(&id) }),
-        ReqT::ExpireAsk { sender, funds, id, .. } => (sender, funds, ExecuteMsg::ExpireAsk { id: render_id(&id) }),
+        ReqT::CancelAsk { sender, funds, id, .. } => (sender, funds, serde_json::json!({"cancel_ask": {"id": render_id(&id)}})),
+        ReqT::ExpireAsk { sender, funds, id, .. } => (sender, funds, serde_json::json!({"expire_ask": {"id": render_id(&id)}})),
         ReqT::RejectAsk { sender, funds, id, size } => {
-            (sender, funds, ExecuteMsg::RejectAsk { id: render_id(&id), size: opt_size(size) })
+            (sender, funds, serde_json::json!({"reject_ask": {"id": render_id(&id), "size": os(size)}}))
         }
-        ReqT::CancelBid { sender, funds, id, .. } => (sender, funds, ExecuteMsg::CancelBid { id: render_id(&id) }),
-        ReqT::ExpireBid { sender, funds, id, .. } => (sender, funds, ExecuteMsg::ExpireBid { id: render_id(&id) }),
+        ReqT::CancelBid { sender, funds, id, .. } => (sender, funds, serde_json::json!({"cancel_bid": {"id": render_id(&id)}})),
+        ReqT::ExpireBid { sender, funds, id, .. } => (sender, funds, serde_json::json!({"expire_bid": {"id": render_id(&id)}})),
         ReqT::RejectBid { sender, funds, id, size } => {
-            (sender, funds, ExecuteMsg::RejectBid { id: render_id(&id), size: opt_size(size) })
+            (sender, funds, serde_json::json!({"reject_bid": {"id": render_id(&id), "size": os(size)}}))
         }
         ReqT::ExecuteMatch { sender, funds, ask_id, bid_id, price, size } => (
             sender,
             funds,
-            ExecuteMsg::ExecuteMatch {
-                ask_id: render_id(&ask_id),
-                bid_id: render_id(&bid_id),
-                price: render_dec(&price),
-                size: u(size),
-            },
+            serde_json::json!({"execute_match": {"ask_id": render_id(&ask_id), "bid_id": render_id(&bid_id),
+                "price": render_dec(&price), "size": us(size)}}),
         ),
         ReqT::ModifyContract {
-            sender,
-            funds,
-            approvers,
-            executors,
-            askfee_rate,
-            askfee_acct,
-            bidfee_rate,
-            bidfee_acct,
-            askattrs,
-            bidattrs,
+            sender, funds, approvers, executors, askfee_rate, askfee_acct, bidfee_rate, bidfee_acct, askattrs, bidattrs,
         } => (
             sender,
             funds,
-            ExecuteMsg::ModifyContract {
-                approvers: approvers.get().cloned(),
-                executors: executors.get().cloned(),
-                ask_fee_rate: askfee_rate.get().map(render_rate),
-                ask_fee_account: askfee_acct.get().cloned(),
-                bid_fee_rate: bidfee_rate.get().map(render_rate),
-                bid_fee_account: bidfee_acct.get().cloned(),
-                ask_required_attributes: askattrs.get().cloned(),
-                bid_required_attributes: bidattrs.get().cloned(),
-            },
+            serde_json::json!({"modify_contract": {
+                "approvers": approvers.get(), "executors": executors.get(),
+                "ask_fee_rate": askfee_rate.get().map(render_rate), "ask_fee_account": askfee_acct.get(),
+                "bid_fee_rate": bidfee_rate.get().map(render_rate), "bid_fee_account": bidfee_acct.get(),
+                "ask_required_attributes": askattrs.get(), "bid_required_attributes": bidattrs.get()}}),
         ),
         _ => unreachable!("not an execute request"),
-    }
+    };
+    Ok((sender, funds, via_json::<ExecuteMsg>(j)?))
 }
 
 // ---------------------------------------------------------------------- responses
@@ -614,21 +588,15 @@ fn feeinfo_from_chain(f: &Option<FeeInfo>) -> FeeInfoT {
 }
 
 pub fn cfg_to_chain(c: &CfgT) -> ContractInfoV3 {
-    ContractInfoV3 {
-        name: c.name.clone(),
-        bind_name: c.bind.clone(),
-        base_denom: c.base.clone(),
-        convertible_base_denoms: c.convs.clone(),
-        supported_quote_denoms: c.quotes.clone(),
-        approvers: c.approvers.iter().map(|a| Addr::unchecked(a.clone())).collect(),
-        executors: c.executors.iter().map(|a| Addr::unchecked(a.clone())).collect(),
-        ask_fee_info: feeinfo_to_chain(&c.askfee),
-        bid_fee_info: feeinfo_to_chain(&c.bidfee),
-        ask_required_attributes: c.askattrs.clone(),
-        bid_required_attributes: c.bidattrs.clone(),
-        price_precision: u(c.prec),
-        size_increment: u(c.inc),
-    }
+    let fee = |f: &FeeInfoT| if f.some { Some(serde_json::json!({"account": f.acct, "rate": render_rate(&f.rate)})) } else { None };
+    via_json(serde_json::json!({
+        "name": c.name, "bind_name": c.bind, "base_denom": c.base, "convertible_base_denoms": c.convs,
+        "supported_quote_denoms": c.quotes, "approvers": c.approvers, "executors": c.executors,
+        "ask_fee_info": fee(&c.askfee), "bid_fee_info": fee(&c.bidfee),
+        "ask_required_attributes": c.askattrs, "bid_required_attributes": c.bidattrs,
+        "price_precision": c.prec.max(0).to_string(), "size_increment": c.inc.max(0).to_string(),
+    }))
+    .expect("contract info")
 }
 
 pub fn cfg_from_chain(c: &ContractInfoV3) -> CfgT {
@@ -651,24 +619,15 @@ pub fn cfg_from_chain(c: &ContractInfoV3) -> CfgT {
 }
 
 fn ask_to_chain(a: &AskT) -> AskOrderV1 {
-    AskOrderV1 {
-        id: render_id(&a.id),
-        owner: Addr::unchecked(a.owner.clone()),
-        class: match a.class.as_str() {
-            "basic" => AskOrderClass::Basic,
-            "pending" => AskOrderClass::Convertible { status: AskOrderStatus::PendingIssuerApproval },
-            _ => AskOrderClass::Convertible {
-                status: AskOrderStatus::Ready {
-                    approver: Addr::unchecked(a.approver.clone()),
-                    converted_base: coin(a.conva.max(0) as u128, a.convd.clone()),
-                },
-            },
-        },
-        base: a.base.clone(),
-        quote: a.quote.clone(),
-        price: render_dec(&a.price),
-        size: u(a.size),
-    }
+    let class = match a.class.as_str() {
+        "basic" => serde_json::json!("Basic"),
+        "pending" => serde_json::json!({"Convertible": {"status": "PendingIssuerApproval"}}),
+        _ => serde_json::json!({"Convertible": {"status": {"Ready": {"approver": a.approver,
+                "converted_base": {"denom": a.convd, "amount": a.conva.max(0).to_string()}}}}}),
+    };
+    via_json(serde_json::json!({"id": render_id(&a.id), "owner": a.owner, "class": class, "base": a.base,
+        "quote": a.quote, "price": render_dec(&a.price), "size": a.size.max(0).to_string()}))
+    .expect("ask order")
 }
 
 pub fn ask_from_chain(a: &AskOrderV1) -> AskT {
@@ -710,18 +669,19 @@ fn fee_from_chain(f: &Option<Coin>) -> FeeT {
     }
 }
 
+fn coin_json(amount: i64, denom: &str) -> serde_json::Value {
+    serde_json::json!({"denom": denom, "amount": amount.max(0).to_string()})
+}
+
 fn bid_to_chain(b: &BidT) -> BidOrderV3 {
-    BidOrderV3 {
-        base: coin(b.size.max(0) as u128, b.base.clone()),
-        accumulated_base: u(b.ab),
-        accumulated_quote: u(b.aq),
-        accumulated_fee: u(b.af),
-        fee: fee_to_chain(&b.fee),
-        id: render_id(&b.id),
-        owner: Addr::unchecked(b.owner.clone()),
-        price: render_dec(&b.price),
-        quote: coin(b.qamt.max(0) as u128, b.quote.clone()),
-    }
+    via_json(serde_json::json!({
+        "base": coin_json(b.size, &b.base),
+        "accumulated_base": b.ab.max(0).to_string(), "accumulated_quote": b.aq.max(0).to_string(),
+        "accumulated_fee": b.af.max(0).to_string(),
+        "fee": if b.fee.some { Some(coin_json(b.fee.amt, &b.fee.denom)) } else { None },
+        "id": render_id(&b.id), "owner": b.owner, "price": render_dec(&b.price), "quote": coin_json(b.qamt, &b.quote),
+    }))
+    .expect("bid order")
 }
 
 pub fn bid_from_chain(b: &BidOrderV3) -> BidT {
@@ -744,36 +704,27 @@ pub fn bid_from_chain(b: &BidOrderV3) -> BidT {
 
 #[allow(deprecated)]
 fn bid_to_chain_v2(b: &BidT) -> BidOrderV2 {
-    let evfee = |e: &EventT| if e.fee.some { Some(coin(e.fee.amt.max(0) as u128, b.quote.clone())) } else { None };
-    BidOrderV2 {
-        base: coin(b.size.max(0) as u128, b.base.clone()),
-        events: b
-            .events
-            .iter()
-            .map(|e| Event {
-                action: match e.kind.as_str() {
-                    "fill" => Action::Fill {
-                        base: coin(e.base.max(0) as u128, b.base.clone()),
-                        fee: evfee(e),
-                        price: render_dec(&b.price),
-                        quote: coin(e.quote.max(0) as u128, b.quote.clone()),
-                    },
-                    "refund" => Action::Refund { fee: evfee(e), quote: coin(e.quote.max(0) as u128, b.quote.clone()) },
-                    _ => Action::Reject {
-                        base: coin(e.base.max(0) as u128, b.base.clone()),
-                        fee: evfee(e),
-                        quote: coin(e.quote.max(0) as u128, b.quote.clone()),
-                    },
-                },
-                block_info: BlockInfo::default(),
-            })
-            .collect(),
-        fee: fee_to_chain(&b.fee),
-        id: render_id(&b.id),
-        owner: Addr::unchecked(b.owner.clone()),
-        price: render_dec(&b.price),
-        quote: coin(b.qamt.max(0) as u128, b.quote.clone()),
-    }
+    let evfee = |e: &EventT| if e.fee.some { Some(coin_json(e.fee.amt, &b.quote)) } else { None };
+    let events: Vec<serde_json::Value> = b
+        .events
+        .iter()
+        .map(|e| {
+            let action = match e.kind.as_str() {
+                "fill" => serde_json::json!({"Fill": {"base": coin_json(e.base, &b.base), "fee": evfee(e),
+                    "price": render_dec(&b.price), "quote": coin_json(e.quote, &b.quote)}}),
+                "refund" => serde_json::json!({"Refund": {"fee": evfee(e), "quote": coin_json(e.quote, &b.quote)}}),
+                _ => serde_json::json!({"Reject": {"base": coin_json(e.base, &b.base), "fee": evfee(e),
+                    "quote": coin_json(e.quote, &b.quote)}}),
+            };
+            serde_json::json!({"action": action, "block_info": {"height": 0, "time": "0"}})
+        })
+        .collect();
+    via_json(serde_json::json!({
+        "base": coin_json(b.size, &b.base), "events": events,
+        "fee": if b.fee.some { Some(coin_json(b.fee.amt, &b.fee.denom)) } else { None },
+        "id": render_id(&b.id), "owner": b.owner, "price": render_dec(&b.price), "quote": coin_json(b.qamt, &b.quote),
+    }))
+    .expect("old-format bid order")
 }
 
 #[allow(deprecated)]
